@@ -65,7 +65,8 @@ impl SplitPacket {
                 };
 
                 let is_compressed = ((id >> 31) & 1u32) == 1u32;
-                let decompressed = match is_compressed {
+                // the decompressed size and the CRC32 are only present in the first packet of a compressed response
+                let decompressed = match is_compressed && number == 0u8 {
                     false => None,
                     true => Some((buffer.read()?, buffer.read()?)),
                 };
